@@ -12,6 +12,9 @@ import (
 
 var ErrOverflow = errors.New("overflow")
 
+// maxZeroWidthElements 限制不占用输入字节的元素所组成的切片长度
+const maxZeroWidthElements = 65536
+
 // 长度前缀字节数（用于 ReadBytesWithLength / WriteBytesWithLength）
 const (
 	LengthSize1 = 1 // 最大 255
@@ -445,22 +448,25 @@ func (r *Reader) readReflect(v interface{}) error {
 			return err
 		}
 
-		// 创建切片并读取每个元素
-		slice := reflect.MakeSlice(rv.Type(), int(length), int(length))
+		// 长度来自输入数据，不可在校验前据此分配内存（4 字节的输入即可要求分配数十 GiB）：
+		// 预分配容量以剩余字节数为上限，元素逐个读取并追加，数据不足时自然以 EOF 结束
+		capHint := int(length)
+		if remaining := r.RemainingSize(); capHint > remaining {
+			capHint = remaining
+		}
+		elemType := rv.Type().Elem()
+		slice := reflect.MakeSlice(rv.Type(), 0, capHint)
 		for i := 0; i < int(length); i++ {
-			elem := slice.Index(i)
-			if elem.CanAddr() {
-				if err := r.Read(elem.Addr().Interface()); err != nil {
-					return err
-				}
-			} else {
-				// 对于不可寻址的元素，创建临时变量
-				elemPtr := reflect.New(rv.Type().Elem())
-				if err := r.Read(elemPtr.Interface()); err != nil {
-					return err
-				}
-				elem.Set(elemPtr.Elem())
+			posBefore := r.pos
+			elemPtr := reflect.New(elemType)
+			if err := r.Read(elemPtr.Interface()); err != nil {
+				return err
 			}
+			if r.pos == posBefore && int(length) > maxZeroWidthElements {
+				// 元素不占用任何输入字节（例如没有导出字段的结构体）时，长度不再受输入大小约束，需另行设限
+				return fmt.Errorf("slice length %d exceeds max %d for zero-width elements", length, maxZeroWidthElements)
+			}
+			slice = reflect.Append(slice, elemPtr.Elem())
 		}
 		rv.Set(slice)
 		return nil
